@@ -16,6 +16,13 @@ Theorem C18_missing_recognised :
 Proof. exact dangling_kinds_missing. Qed.
 Print Assumptions C18_missing_recognised.
 
+(** … and an error a derived reader raised for an ENTRY of an object that exists (PdfError::FromPrimitive) is never one of them:
+    an optional entry / array element that designates an existing object whose own required entry dangles stays an error naming
+    that entry (the second sentence of the property; computed on the generated look-through table of is_missing_object) *)
+Theorem C18_existing_object_not_missing : forall f e, is_missing (EFromPrim f e) = false /\ opt_none (EFromPrim f e) = false.
+Proof. exact existing_object_not_missing. Qed.
+Print Assumptions C18_existing_object_not_missing.
+
 (** strict and tolerant ([allow] is universally quantified): an optional holder that follows references reads a
     dangling reference as None *)
 Theorem C18_option_null : C18_full_statement.
